@@ -7,13 +7,13 @@ META = dict(
     engines="B",
     files=FILES,
     technique="the real PointJacobi / Point methods are executed on exact-width bit-vector proxies with symbolic X, Y, Z for both operands (Engine B, DFS over branch decisions) and every path's result term is compared by z3 with the affine chord/tangent law written with witness variables (inverses, slope); bounded to prime-order curves over tiny prime fields",
-    level_text="Solver verdict, per curve over F_p (p in {11,13} quick; up to 23 thorough), over every projective representation of both operands (all X, Y, Z in the field incl. infinity encodings, equal and inverse operands, Z = 1 shortcuts, negated Y): Jacobian addition (all five variants + dispatcher), doubling, public __add__/double/__neg__/__eq__/scale/to_affine, affine Point addition/doubling obey the group law; scalar multiplication (NAF, precomputed, mul_add) equals repeated reference addition for every scalar 0..2n on concrete base points; the public-point test equals the textbook predicate (complete on tiny fields; polynomial identity on P-256 with integer proxies).",
+    level_text="Solver verdict, per curve over F_p (p in {11,13} quick; up to 19 thorough), over every projective representation of both operands (all X, Y, Z in the field incl. infinity encodings, equal and inverse operands, Z = 1 shortcuts, negated Y): Jacobian addition (all five variants + dispatcher), doubling, public __add__/double/__neg__/__eq__/scale/to_affine, affine Point addition/doubling obey the group law; scalar multiplication (NAF, precomputed, mul_add) equals repeated reference addition for every scalar 0..2n on concrete base points; the public-point test equals the textbook predicate (complete on tiny fields; polynomial identity on P-256 with integer proxies).",
     level_note="OUTSIDE the claim: all 17 shipped curves as such (192-521-bit field multiplication cannot be bit-blasted; the formulas are the same code, but that is an argument, not a solver verdict), agreement with OpenSSL, square_root_mod_prime, Edwards curves. numbertheory.inverse_mod (pow(a,-1,m), a C built-in) is replaced by its contract: fresh inv with (a*inv) % p == 1, 0 for a == 0. Trusted: z3, the proxy class (self-tested in C15), the 30-line affine reference.",
     explanation="Bounded symbolic verification with Engine B: the unmodified methods of the vendored python-ecdsa run on proxies; the DFS explorer forks at every `if` (both sides checked feasible with z3); the scalar-multiplication part forks on NAF digits, which is close to enumeration of the scalar and is reported as such (paths counted).",
     functions=["PointJacobi._add", "_add_with_z_1", "_add_with_z_eq", "_add_with_z2_1", "_add_with_z_ne", "_double", "_double_with_z_1", "__add__", "double", "__neg__", "__eq__", "scale", "to_affine", "x", "y", "__mul__", "_mul_precompute", "_maybe_precompute", "mul_add", "_naf", "Point.__add__", "Point.double", "CurveFp.contains_point", "ecdsa.Public_key.__init__"],
     stubs=["numbertheory.inverse_mod -> contract stub (fresh witness)"],
     assumptions=["operands are valid projective points of the curve or infinity encodings", "prime group order (as for every shipped curve: the library encodes infinity as y = 0)"],
-    bounds=dict(quick="p in {11, 13}; scalars 0..2n on the generator", thorough="p in {11, 13, 17, 19, 23}; scalars 0..2n on two base points"),
+    bounds=dict(quick="p in {11, 13}; scalars 0..2n on the generator", thorough="p in {11, 13, 17, 19} (p = 23 was tried: 3 of its 30 sliced jobs exceeded 3430 s, so it is outside the claim); scalars 0..2n on two base points"),
     outside=["shipped 192..521-bit curves", "OpenSSL agreement", "square_root_mod_prime", "Edwards curves"],
 )
 
@@ -54,7 +54,7 @@ def affine_add(p, a, P, Q):
 
 
 def jobs(tier, seed):
-    primes = [11, 13] if tier == "quick" else [11, 13, 17, 19, 23]
+    primes = [11, 13] if tier == "quick" else [11, 13, 17, 19]
     J = []
     for p in primes:
         big = p > 13
